@@ -18,8 +18,8 @@ MANIFEST = {
 
 INVARIANTS = ["C01_Group"]
 PROPERTIES = ["C07_NoNewWork", "C07_NoInsertBelow", "C07_SubtreeOnly"]
-QUICK = ['nest_s', 'sib']
-THOROUGH = ['nest_s', 'sib', 'chain2', 'grp2', 'jpim_s', 'clean', 'upd2', 'nest', 'jpim']
+QUICK = ['nest_s', 'alw', 'nestc']
+THOROUGH = ['nest_s', 'alw', 'nestc', 'sib', 'chain2', 'grp2', 'jpim_s', 'clean', 'upd2', 'nest', 'jpim']
 FINDINGS = []
 
 
